@@ -38,6 +38,8 @@ type c06Obs struct {
 	dets       int
 	completed  int
 	afterLate  int
+	ended      int // alternatives that ended at their catch event with a termination trace
+	cancelled  int // ... with a cancellation trace (none before the instance is closed)
 	blocked    string
 	log        []Ev
 }
@@ -127,6 +129,14 @@ func c06Run(n int, events []int, concurrent bool, late []int) c06Obs {
 	time.Sleep(settle)
 	o.afterLate = breq(in.Log())
 	o.log = in.Log()
+	for _, e := range o.log {
+		if strings.HasPrefix(e.N, "C") && e.K == "term" {
+			o.ended++
+		}
+		if strings.HasPrefix(e.N, "C") && e.K == "cancelflow" {
+			o.cancelled++
+		}
+	}
 	return o
 }
 
@@ -186,6 +196,9 @@ func runC06(env *Env) {
 					if o.completed != 1 {
 						rep.Violate("C06-completes", cs, "instance did not complete; log: "+logString(o.log))
 					}
+					if o.completed == 1 && (o.ended != n-1 || o.cancelled != 0) {
+						rep.Violate("C06-withdrawal", cs, fmt.Sprintf("%d of the %d other alternatives ended at their catch event with a termination trace, %d with a cancellation trace (the instance was not cancelled); log: %s", o.ended, n-1, o.cancelled, logString(o.log)))
+					}
 					if o.afterLate != o.requests {
 						rep.Violate("C06-late-event", cs, fmt.Sprintf("late deliveries caused %d further branch requests", o.afterLate-o.requests))
 					}
@@ -200,6 +213,50 @@ func runC06(env *Env) {
 				}
 			}
 		}
+	}
+	// behind the gateway the alternatives meet again in an inclusive join: the winner's token passes it (the withdrawn
+	// alternatives are gone for the join too), whichever alternative wins
+	for w := 0; w < 3 && !rep.Saturated(); w++ {
+		cs := fmt.Sprintf("3 alternatives meeting in an inclusive join, alternative %d wins", w)
+		env.Current(cs)
+		p := &Prog{}
+		p.Node("start", "start")
+		p.Node("ebg", "EG")
+		p.Node("incl", "IJ")
+		p.Node("task", "N")
+		p.Node("end", "end")
+		p.Flow("start", "EG", "")
+		extra := ""
+		for i := 0; i < 3; i++ {
+			c := p.Node("catch", fmt.Sprintf("C%d", i))
+			c.Inner = fmt.Sprintf(`<bpmn:signalEventDefinition id="sd%d" signalRef="sig%d"/>`, i, i)
+			p.Flow("EG", fmt.Sprintf("C%d", i), "")
+			p.Flow(fmt.Sprintf("C%d", i), "IJ", "")
+			extra += fmt.Sprintf(`<bpmn:signal id="sig%d" name="sig%d"/>`, i, i)
+		}
+		p.Flow("IJ", "N", "")
+		p.Flow("N", "end", "")
+		defs, err := ParseDefs(p.XML(extra))
+		must(err)
+		in, err := StartInst(defs, InstOpt{})
+		must(err)
+		rep.Evaluations++
+		rep.Nontrivial++
+		rep.Count("inclusive_join_behind")
+		if !in.WaitUntil(tmoStep, func(l []Ev) bool { return countEv(l, "listening", "*") >= 3 }) {
+			rep.Violate("C06-completes", cs, "alternatives never started listening; log: "+logString(in.Log()))
+			in.Close()
+			continue
+		}
+		c06Deliver(in, fmt.Sprintf("sig%d", w))
+		if !in.Answer("N", tmoStep) {
+			rep.Violate("C06-completes", cs, "the winner's token did not get past the inclusive join (N not requested); log: "+logString(in.Log()))
+		} else if !in.WaitCease(tmoStep) {
+			rep.Violate("C06-completes", cs, "instance did not complete; log: "+logString(in.Log()))
+		} else if n := countEv(in.Log(), "task", "N"); n != 1 {
+			rep.Violate("C06-one-winner", cs, fmt.Sprintf("N requested %d times; log: %s", n, logString(in.Log())))
+		}
+		in.Close()
 	}
 	// the gateway in a loop: the winning alternative's branch leads back to the gateway, which must run a fresh
 	// race every time the token comes round
